@@ -6,7 +6,7 @@
 -/
 import RSVerif.Proofs.Hom
 import RSVerif.Proofs.Layout
-import RSVerif.Properties.C01
+import RSVerif.Proofs.RestoredBasic
 
 namespace RS
 
